@@ -2,7 +2,13 @@ package verifh
 
 import (
 	"bytes"
+	"encoding/base64"
+	"encoding/hex"
 	"fmt"
+	"os"
+	"path/filepath"
+	"regexp"
+	"sort"
 	"strings"
 	"testing"
 	"time"
@@ -379,6 +385,95 @@ func TestC07_Siblings(t *testing.T) {
 		n := rapid.IntRange(3, 64).Draw(t, "n")
 		return c07SibCase{Key: rapid.SliceOfN(rapid.Byte(), n, n).Draw(t, "key"), Sp: gen.DrawSpelling(t), Kind: rapid.IntRange(0, 8).Draw(t, "kind"), Pos: rapid.IntRange(0, 500).Draw(t, "pos")}
 	})
+}
+
+// Other notations. A secret is base32 text; a key written in another notation and announced by a word — hex:3132..., ascii:1234...,
+// base64:..., 0x... — contains characters outside the alphabet (the ':' at least) and is refused. The words are a dictionary:
+// a fixed list of notation names plus every short word-like string literal of the library's own source (a table of "schemes"
+// or prefixes consulted by the decoder is written as literals).
+type c07NotCase struct {
+	Word    string `json:"word"`
+	Sep     string `json:"sep"`
+	Payload string `json:"payload"`
+	Kind    string `json:"payload_kind"`
+}
+
+var wordLitRe = regexp.MustCompile(`"([A-Za-z][A-Za-z0-9+._-]{1,11})"`)
+
+func notationWords() []string {
+	words := map[string]bool{}
+	for _, w := range []string{"hex", "ascii", "base64", "b64", "base32", "b32", "base16", "b16", "raw", "text", "utf8", "str", "string", "plain", "bin", "bytes", "key", "secret", "file", "env", "otpauth", "urn", "data", "literal", "sha1", "0x", "x", "h", "a"} {
+		words[w] = true
+	}
+	repo := os.Getenv("VERIF_REPO")
+	if repo == "" {
+		repo = "/repo"
+	}
+	files, _ := filepath.Glob(filepath.Join(repo, "*.go"))
+	for _, fn := range files {
+		if strings.HasSuffix(fn, "_test.go") || strings.HasPrefix(filepath.Base(fn), "verif_hooks") {
+			continue
+		}
+		b, err := os.ReadFile(fn)
+		if err != nil {
+			continue
+		}
+		for _, m := range wordLitRe.FindAllSubmatch(b, -1) {
+			words[string(m[1])] = true
+			words[strings.ToLower(string(m[1]))] = true
+		}
+	}
+	var out []string
+	for w := range words {
+		out = append(out, w)
+	}
+	sort.Strings(out)
+	return out
+}
+
+func outsideAlphabet(text string) bool {
+	t := strings.Trim(text, " \t\r\n")
+	for i := 0; i < len(t); i++ {
+		c := t[i]
+		if !(c >= 'A' && c <= 'Z' || c >= 'a' && c <= 'z' || c >= '2' && c <= '7' || c == '=') {
+			return true
+		}
+	}
+	return false
+}
+
+func checkC07Not(c c07NotCase) verdict {
+	text := c.Word + c.Sep + c.Payload
+	if !outsideAlphabet(text) {
+		return ok(false, "inside-the-alphabet")
+	}
+	v := checkC07Bad(c07BadCase{Text: text, Class: "a key announced as " + c.Word + c.Sep + " in " + c.Kind + " notation"})
+	v.Labels = []string{"payload=" + c.Kind, "sep=" + c.Sep}
+	return v
+}
+
+var c07Not = newPart("C07", "other-notations",
+	"enumeration: notation words (a fixed list — hex, ascii, base64, b32, raw, text, 0x ... — plus every short word-like string literal of the library's own non-test source, as written and lower-cased) x separators {: = :// :: - blank} x payloads of one key in {hex lower / upper, ASCII text, decimal digits, base64, its valid base32 text, nothing}; every text with a character outside A-Za-z2-7= must be refused by DecodeSecret, GenerateHOTP and ValidateTOTP (texts that stay inside the alphabet are skipped); every case distinct",
+	checkC07Not)
+
+func TestC07_OtherNotations(t *testing.T) {
+	defer c07Not.rec().Flush()
+	key := []byte("12345678901234567890")
+	payloads := [][2]string{{"hex-lower", hex.EncodeToString(key)}, {"hex-upper", strings.ToUpper(hex.EncodeToString(key))}, {"ascii", string(key)}, {"decimal", "755224"},
+		{"base64", base64.StdEncoding.EncodeToString(key)}, {"base32", ref.B32(key)}, {"empty", ""}, {"hex-short", "0a"}}
+	i := 0
+	for _, w := range notationWords() {
+		for _, sep := range []string{":", "=", "://", "::", "-", " ", ""} {
+			for _, p := range payloads {
+				i++
+				if !ev.Mine(i) {
+					continue
+				}
+				c07Not.each(t, c07NotCase{Word: w, Sep: sep, Payload: p[1], Kind: p[0]})
+			}
+		}
+	}
+	c07Not.rec().Exhaustive()
 }
 
 // Padding inside, enumerated over lengths: the canonical padded encoding of an n-byte string (n not a multiple of 5, so it
